@@ -74,6 +74,8 @@ def gen_cases(kind, n, salt):
                 b = docs.permute_keys(a, r)
             else:
                 b = docs.random_doc(r, depth=r.choice((1, 2, 3)))
+            if c < 0.70 and r.random() < 0.3:
+                b = docs.permute_keys(b, r)      # changed AND written with its keys in another order
             cases.append(("json", a, b, r.choice(docs.ALL_OPTS)))
     elif kind == "skewed":
         # containers of different sizes with elements of very different sizes (C03's focus)
@@ -156,6 +158,38 @@ def gen_cases(kind, n, salt):
     elif kind == "mixedkeys":
         for i in range(n):
             cases.append(("mixedkeys", i, None, r.choice(docs.ALL_OPTS)))
+    elif kind == "wide":
+        # many siblings, few changes: lists of 40-140 small leaves and mappings of 40-120 keys (size-dependent shortcuts,
+        # "only for more than N items" code paths, long common prefixes / suffixes)
+        for i in range(n):
+            m = r.choice((40, 65, 70, 100, 140))
+            if i % 2 == 0:
+                a = [r.choice((0, 1, 2, "a", "b", None)) for _ in range(m)]
+                b = list(a)
+                for _ in range(r.randint(1, 3)):
+                    c = r.random()
+                    k = r.randrange(len(b)) if b else 0
+                    if c < 0.35 and b:
+                        del b[k]
+                    elif c < 0.7:
+                        b.insert(k, r.choice((3, "c", [1])))
+                    elif b:
+                        b[k] = r.choice((4, "d"))
+                if r.random() < 0.3:
+                    a, b = {"k": a}, {"k": b}
+            else:
+                a = {"k%03d" % j: r.choice((0, 1, "v")) for j in range(min(m, 120))}
+                b = dict(a)
+                for _ in range(r.randint(1, 3)):
+                    c = r.random()
+                    k = r.choice(sorted(b))
+                    if c < 0.35:
+                        del b[k]
+                    elif c < 0.7:
+                        b["n%03d" % r.randrange(1000)] = r.choice((2, "w"))
+                    else:
+                        b[k] = r.choice((5, "x"))
+            cases.append(("json", a, b, r.choice((docs.ALL_OPTS[0], docs.ALL_OPTS[1], docs.ALL_OPTS[2], docs.ALL_OPTS[6]))))
     elif kind == "multiline":
         # strings spanning several lines edited next to single-line string edits, with more (indented) content after
         # them: formatter state carried from one string to the next, or from one call to the next, would show
@@ -191,7 +225,24 @@ def gen_cases(kind, n, salt):
                 return x
             b = edit(a)
             cases.append(("json", a, b, r.choice(docs.ALL_OPTS[:3])))
-    elif kind in ("csv", "pyobj", "plist", "loaded", "crossplist"):
+    elif kind == "rekeyed":
+        # mappings whose members ALL have to be paired by the matcher (no key in common) and whose keys / values are longer
+        # strings over a small alphabet: which pairing the matcher settles on depends on how far each candidate string edit
+        # has been refined - sensitive to any state that survives from one edit (or one diff) to the next
+        for i in range(n):
+            word = lambda lo, hi: "".join(r.choice("abc") for _ in range(r.randint(lo, hi)))
+            def doc():
+                d = {}
+                while len(d) < 2:
+                    d[word(2, 4) if r.random() < 0.5 else word(8, 13)] = word(2, 3) if r.random() < 0.5 else word(5, 10)
+                return d
+            a, b = doc(), doc()
+            while set(a) & set(b):
+                b = doc()
+            if i % 4 == 3:
+                a, b = [a, word(2, 6)], [b, word(2, 6)]
+            cases.append(("json", a, b, r.choice(docs.ALL_OPTS[:3])))
+    elif kind in ("csv", "pyobj", "plist", "loaded", "crossplist", "mixedopts"):
         for i in range(n):
             cases.append((kind, i, None, r.choice(docs.ALL_OPTS)))
     elif kind == "huge":
@@ -238,6 +289,17 @@ def build_pair(case, salt):
         # only serve the cost views of C03 (the element accounting of C01 / C10 has no place for the wrapper)
         r = rng("crossplist", salt, a)
         return docs.random_loaded_pair(r, opts, cross=r.choice(("plist>json", "plist>yaml")))
+    if kind == "mixedopts":
+        # the two trees are built with DIFFERENT build options (different callers, an options object changed between the two
+        # build_tree() calls): e.g. fixed-key mappings on one side, ordinary mappings on the other.  Used by C01 only (what
+        # the matching options promise for such a pair is not defined, so C10's clauses do not apply).
+        r = rng("mixedopts", salt, a)
+        da = docs.random_doc(r, depth=r.choice((2, 3)))
+        while not isinstance(da, (dict, list)) or not da:
+            da = docs.random_doc(r, depth=r.choice((2, 3)))
+        db = docs.mutate(da, r)
+        other = r.choice([o for o in docs.ALL_OPTS if o != opts])
+        return docs.build(da, opts), docs.build(db, other)
     if kind == "mixedkeys":
         r = rng("mixedkeys", salt, a)
         da, db = docs.random_mixedkeys_docs(r)
@@ -256,11 +318,59 @@ def build_pair(case, salt):
             return "nil" if v is None else v
         x = noneless(docs.random_doc(r, depth=2))
         y = noneless(docs.mutate(x, r) if r.random() < 0.8 else docs.random_doc(r, depth=2))
+        if a % 3 == 0:
+            # a ROOT dictionary (or a one-element root array holding it) with RENAMED keys whose names and values are long
+            # and differ in several characters: the pair of key/value pairs the matcher settles on is still a wide interval
+            # when the matching is known, i.e. the mapping edit below the wrapper is "complete" long before it is definitive
+            words = ("colour", "shade", "dark green", "dark olive green", "probe", "surface finish", "finish", "matt black",
+                     "gloss white", "identifier", "ident", "description", "descr.", "north-west", "south-west")
+            x = {r.choice(words): r.choice(words + (10, 2.5, True)) for _ in range(r.randint(2, 4))}
+            y = dict(x)
+            for k in r.sample(sorted(x), min(len(x), r.randint(1, 2))):
+                v = y.pop(k)
+                y[r.choice([w for w in words if w not in x])] = r.choice(words) if r.random() < 0.7 else v
+            if r.random() < 0.25:
+                x, y = [x], [y]
         return PLISTNode(docs.build(x, opts)), PLISTNode(docs.build(y, opts))
     if kind == "huge":
         r = rng("huge", salt, a)
-        k = a % 4
+        k = a % 6
         big = lambda ch: ch * r.randint(22000, 34000)
+        if k >= 4:
+            # a total cost of EXACTLY 2^16 - 1, 2^16 or 2^16 + 1 (the boundaries of 16-bit arithmetic): two huge strings are
+            # removed from (or inserted into) a list; each costs its size + 1
+            import graphtage
+            target = (2 ** 16, 2 ** 16 - 1, 2 ** 16 + 1)[(a // 6) % 3]
+            m1 = r.randint(20000, 40000)
+            c1 = graphtage.StringNode("a" * m1).total_size + 1
+            probe = graphtage.StringNode("b" * 1000).total_size - 1000          # size of a string beyond its length
+            if k == 4:
+                # the plain shape: two huge strings whose sizes add up to the target, removed from / inserted into a list
+                # (for a list of non-empty leaves the cost of an element is its size, and the edit's own upper bound is
+                # the same number)
+                x, y = ["a" * m1, "b" * (target - m1)], []
+                if r.random() < 0.3:
+                    x, y = [x, 1], [y, 1]
+                if r.random() < 0.5:
+                    x, y = y, x
+                return docs.build(x, opts), docs.build(y, opts)
+            m2 = target - c1 - 1 - probe
+            flip = r.random() < 0.5
+            for _ in range(3):          # calibrate against the cost model itself (penalties depend on the list's content)
+                x, y = ["a" * m1, "b" * m2], []
+                if k == 5:
+                    x, y = {"k": x, "n": 1}, {"k": y, "n": 1}
+                if flip:
+                    x, y = y, x
+                ta, tb = docs.build(x, opts), docs.build(y, opts)
+                e = ta.edits(tb)
+                while e.tighten_bounds():
+                    pass
+                got = e.bounds().upper_bound
+                if got == target:
+                    break
+                m2 += target - got
+            return docs.build(x, opts), docs.build(y, opts)
         if k == 0:
             x, y = [big("x"), big("y"), big("z")][: r.randint(2, 3)], [1, 2, 3][: r.randint(1, 3)]
         elif k == 1:
